@@ -604,6 +604,14 @@ func ruleP9(r *Run) {
 							}
 						}
 						if ret, ok := k.(*ast.ReturnStmt); ok && len(ret.Results) == 1 {
+							// `return err == nil`: stops only on a failure (which the caller retries)
+							if be, ok := ast.Unparen(ret.Results[0]).(*ast.BinaryExpr); ok && be.Op == token.EQL {
+								if tv, ok := info.Types[be.X]; ok && tv.Type.String() == "error" {
+									if id, ok := ast.Unparen(be.Y).(*ast.Ident); ok && id.Name == "nil" {
+										return true
+									}
+								}
+							}
 							if id, ok := ast.Unparen(ret.Results[0]).(*ast.Ident); !ok || id.Name != "true" {
 								bad = "return " + types.ExprString(ret.Results[0]) + " at " + p.Rel(ret.Pos())
 							}
